@@ -8,6 +8,7 @@ executes them (i) on two real BlockWise instances joined by its relay, (ii) on t
 by in-memory sessions (datagram-level faults), (iii) fault-free on two real tcp connections (BERT); TLC judges
 the deliveries, and for (i) also checks message-by-message conformance with the specification."""
 import json
+import re
 import os
 
 import vf
@@ -71,6 +72,7 @@ def run(ctx):
                 if budget == 0:
                     jobs.append({"mode": "tcp", "p": pp, "acts": []})
                     jobs.append({"mode": "tcpconc", "p": pp, "acts": []})       # three exchanges at the same time
+                    jobs.append({"mode": "tcpconcz", "p": pp, "acts": []})      # ... whose tokens differ only in leading zero bytes
                     nscen += 1
                     # directed: the fault-free schedule with the n-th message towards the server (n = 1, 2) duplicated
                     # and both copies handed to the layer at the same time; extra deliveries drain what that adds
@@ -149,9 +151,31 @@ def run(ctx):
             jobs.append({"mode": "obsbw", "p": {"l": 0, "l2": l2, "cs": cs, "ss": ss, "cmms": 2048, "smms": 2048}, "plan": plan})
             nobs += 1
     ctx.cov["observe_blockwise_plans"] = nobs
+    # (e) two uploads with different tokens interleaved at the server's layer (Mix.tla): every interleaving of 2 x 3 and 2 x 2
+    #     blocks; with one key for both tokens the model mixes (vacuity guard); token pairs incl. ones that differ only in
+    #     leading zero bytes or in length
+    rx = vf.run_tlc(ctx, "bw", "MC_Mix", "MC_Mix.cfg", workers=1, timeout=600, cont=False)
+    vf.tlc_must_finish(rx, "MC_Mix")
+    if rx.inv:
+        raise vf.Machinery("design-level invariant failed in Mix (spec bug, not a code verdict): %s" % rx.inv)
+    rxm = vf.run_tlc(ctx, "bw", "MC_Mix", "MC_Mix_mut.cfg", workers=1, timeout=600, cont=False)
+    if "NoMix" not in rxm.inv:
+        raise vf.Machinery("vacuity guard: Mix with one key for both tokens should violate NoMix, TLC reported %s" % rxm.inv)
+    orders = sorted(set(m.group(1) for m in re.finditer(r'<<"ORDER", "(\[[0-9,]*\])">>', rx.out)))
+    if len(orders) != 20:
+        raise vf.Machinery("Mix: expected the 20 interleavings of 3 + 3 blocks, got %d" % len(orders))
+    nmix = 0
+    for ta, tb in (([42], [0, 42]), ([42], [43]), ([0], [0, 0]), ([1, 2, 3, 4, 5, 6, 7, 8], [0, 2, 3, 4, 5, 6, 7, 8]), ([0, 0, 42], [0, 42]), ([42, 0], [42])):
+        for o in orders:
+            jobs.append({"mode": "mix", "tokA": ta, "tokB": tb, "nb": 3, "order": json.loads(o)})
+            nmix += 1
+    ctx.cov["layer_two_transfer_interleavings"] = nmix
     ctx.cov["directed_retry_after_abandon_schedules"] = nretry
     if not jobs:
         raise vf.Machinery("no schedules generated")
+    # what two goroutines do to each other is decided by the scheduler: every schedule with concurrently handled copies is run
+    # four times (defect D23 showed in one run of several hundred)
+    jobs += [j for j in jobs if j["mode"] == "layerc"] * 3
     jpath = os.path.join(ctx.work, "jobs.ndjson")
     vf.write_ndjson(jpath, jobs)
     out = os.path.join(ctx.work, "traces.ndjson")
@@ -162,10 +186,10 @@ def run(ctx):
     ctx.add("transitions", gen)
     ctx.add("traces_validated_against_impl", len(traces))
     ctx.cov["scenarios"] = nscen
-    ctx.cov["schedules_by_mode"] = {m: sum(1 for j in jobs if j["mode"] == m) for m in ("layer", "layerc", "udp", "tcp", "tcpconc")}
+    ctx.cov["schedules_by_mode"] = {m: sum(1 for j in jobs if j["mode"] == m) for m in ("layer", "layerc", "udp", "tcp", "tcpconc", "tcpconcz", "obsbw")}
     obsrecs = [t for t in traces if t["op"] == "obsbw"]
     ctx.cov["observer_deliveries"] = sum(len(t["notes"]) for t in obsrecs)
-    single = [t for t in traces if t["op"] not in ("conc", "obsbw")]
+    single = [t for t in traces if t["op"] not in ("conc", "obsbw", "mix")]
     ctx.cov["messages_relayed"] = sum(len(t["msgs"]) for t in single)
     ctx.cov["completed_exchanges"] = sum(1 for t in single if t["ret"] == "ok" and t["retcode"] in (68, 69))
     ctx.cov["exchanges_ending_in_error_or_timeout"] = sum(1 for t in single if not (t["ret"] == "ok" and t["retcode"] in (68, 69)))
@@ -176,6 +200,16 @@ def run(ctx):
         if clause == "K04_ObsCurrent":
             ctx.drift.append({"clause": clause, "traces": len(ts), "example": {k: ts[0][k] for k in ("p", "plan", "nver", "lastSeen")}})
             continue
+        mx = [t for t in ts if t["op"] == "mix"]
+        if mx:
+            t0 = mx[0]
+            vf.report(ctx, clause, {"mode": "layer-two-transfers"},
+                      "%d interleaving(s) of two uploads with different tokens at the server's block-wise layer violate the clause; e.g. tokens %s order %s -> response codes %s, application got %s" % (
+                          len(mx), t0["tokens"], t0["order"], t0["codes"], json.dumps([[d["who"], d["len"], d["own"][:4]] for d in t0["app"]])[:400]),
+                      {"trace": t0, "cmd": "bin/check C04 --tier %s" % ctx.tier})
+            ts = [t for t in ts if t["op"] != "mix"]
+            if not ts:
+                continue
         ob = [t for t in ts if t["op"] == "obsbw"]
         if ob:
             t0 = min(ob, key=lambda t: len(t["plan"]))
@@ -220,7 +254,7 @@ def run(ctx):
         ctx.cov["observations"] = obs
 
     def mutate(t, rng):
-        if t["op"] not in ("conc", "obsbw") and t["app"] and t["app"][0]["len"] > 1 and t["p"]["l"] > 1:
+        if t["op"] not in ("conc", "obsbw", "mix") and t["app"] and t["app"][0]["len"] > 1 and t["p"]["l"] > 1:
             app = [dict(d) for d in t["app"]]
             ps = [list(x) for x in app[0]["pieces"]]
             ps[-1][2] -= 1
